@@ -213,9 +213,9 @@ Definition macro_d (s : st) : st :=
   let s2 := useless o s1 in
   let s3 := if par s2 then
               let s' := process_paragraph (close_spanning s2) in
-              if scope_verse s' then end_stanza s' else end_paragraph PNormal s'
+              if scope_verse s' && verse s' then end_stanza s' else end_paragraph PNormal s'
             else s2 in
-  (begin_dialogue (reopen_spanning ((begin_paragraph s3) <| par := true |>))) <| ws := false |>.
+  (begin_dialogue (reopen_spanning ((begin_paragraph s3) <| par := true |>))) <| ws := false |> <| verse := false |>.
 
 Definition macro_im (s : st) : st :=
   let '(o, s1) := parse_opts specOptIm (args s) s in
@@ -291,8 +291,9 @@ Definition it_table (a : list arg) (s : st) : st :=
   let s6 := match a with [] => s5 | _ => let '(t, s') := pim a s5 in (w t s') <| ws := true |> end in
   push_it s6.
 Definition it_verse (a : list arg) (s : st) : st :=
-  let s1 := if negb (par s) then (begin_verse_line (begin_paragraph s)) <| par := true |>
-            else begin_verse_line (if negb (verse s) then err "found verse text outside of It scope" s else end_verse_line s) in
+  let s1 := if negb (par s) then reopen_spanning ((begin_verse_line (begin_paragraph s)) <| par := true |>)
+            else if negb (verse s) then begin_verse_line (err "found verse text outside of It scope" s)
+            else reopen_spanning (begin_verse_line (end_verse_line (close_spanning s))) in
   let s2 := match a with [] => s1 | _ => let '(t, s') := pim a s1 in (w t s') <| ws := true |> end in
   s2 <| verse := true |>.
 Definition macro_it (s : st) : st :=
@@ -333,7 +334,7 @@ Definition macro_p (s : st) : st :=
   let '(o, s1) := parse_opts specOptNone (args s) s in
   let s2 := if par s1 then
               let s' := process_paragraph (close_spanning s1) in
-              if scope_verse s' then end_stanza s' else end_paragraph PNormal s'
+              if scope_verse s' && verse s' then end_stanza s' else end_paragraph PNormal s'
             else (end_paragraph PForced s1) <| par := false |> in
   let s3 := match po_args o with
             | [] => s2
